@@ -147,7 +147,7 @@ def gen_field(rng, kinds=("lit", "int", "float", "date"), start=0, maxsize=24, s
     if k == "lit":
         return {"k": "lit", "size": rng.randint(1, min(12, maxsize)), "start": start}
     if k == "int":
-        return {"k": "int", "size": rng.randint(1, min(12, maxsize)), "start": start}
+        return {"k": "int", "size": rng.randint(16, 20) if rng.random() < 0.12 and maxsize >= 20 else rng.randint(1, min(12, maxsize)), "start": start}
     if k == "float":
         fmt = rng.choice("FFfEe" if sci else "FFf")
         dd = rng.randint(0, 8)
